@@ -73,13 +73,13 @@ def expected_value(v):
     return v
 
 
-def metadata(bands=None, shape=(12, 14), disp=(-2, 2)):
+def metadata(bands=None, shape=(12, 14), disp=(-2, 2), right_bands=None):
     if bands:
         img = np.zeros((len(bands),) + shape, dtype=np.float32)
     else:
         img = np.zeros(shape, dtype=np.float32)
     l = build.image_dataset(img, None, disp, bands=bands)
-    r = build.image_dataset(img, None, None, bands=bands)
+    r = build.image_dataset(img, None, None, bands=right_bands or bands)
     return build.metadata_dataset(l), build.metadata_dataset(r)
 
 
@@ -142,6 +142,24 @@ def judge_accept(ctx: Ctx, pipe_list, md, tag, kind_defaults=True):
                         ctx.violation("C05/default-missing", f"{tag}: {name}.{k} absent from the checked configuration")
                     elif not same(got[k], d):
                         ctx.violation("C05/default-value-wrong", f"{tag}: {name}.{k} = {got[k]!r}, documented default {d!r}")
+    # the machine-level entry point (API users call it directly): same acceptance, user dictionary untouched
+    from pandora.state_machine import PandoraMachine
+
+    direct = {"pipeline": {n: copy.deepcopy(c) for n, c in frozen["pipeline"].items()}}
+    direct_before = copy.deepcopy(direct)
+    m = PandoraMachine()
+    try:
+        m.check_conf(direct, md[0], md[1])
+    except Exception as exc:  # noqa: BLE001
+        ctx.violation("C05/in-domain-value-rejected", f"{tag} (PandoraMachine.check_conf): {type(exc).__name__}: {str(exc)[:120]}")
+    else:
+        if not same(direct, direct_before):
+            ctx.violation("C05/user-dictionary-mutated", f"{tag} (PandoraMachine.check_conf): {direct} vs {direct_before}")
+        for name, ucfg in direct_before["pipeline"].items():
+            got = m.pipeline_cfg["pipeline"].get(name, {})
+            for k, v in ucfg.items():
+                if k not in got or not same(got[k], expected_value(v)):
+                    ctx.violation("C05/user-value-changed", f"{tag} (PandoraMachine.check_conf): {name}.{k} = {v!r} -> {got.get(k)!r}")
     # idempotence on a fresh machine
     again = [[n, copy.deepcopy(c)] for n, c in out.items()]
     ok2, res2, _, _, _ = run_check(again, md)
@@ -254,6 +272,9 @@ def combined_cases(draw):
         if b is not None:
             steps[0][1]["band"] = b
         band_ok = b in ("r", "g", "b")
+        right_bands = draw(st.sampled_from([None, None, ["r", "g", "b"], ["g", "b", "n"]]))
+        if right_bands == ["g", "b", "n"] and b == "r":
+            band_ok = False
     elif draw(st.integers(0, 5)) == 0:
         steps[0][1]["band"] = "r"
         band_ok = False
@@ -269,6 +290,8 @@ def combined_cases(draw):
             add(f"cost_volume_confidence.c{ncv}", "cost_volume_confidence", base)
             ncv += 1
     add("disparity", "disparity", P.WTA)
+    if nb == 1:
+        right_bands = None
     cnt = {}
     for _ in range(draw(st.integers(0, 3))):
         k = draw(st.sampled_from(["median", "bilateral", "mfi", "refinement", "validation", "multiscale"]))
@@ -280,14 +303,15 @@ def combined_cases(draw):
         base = {"median": P.MED, "bilateral": P.BIL, "mfi": P.MFI, "refinement": {"refinement_method": draw(st.sampled_from(["vfit", "quadratic"]))},
                 "validation": P.VAL, "multiscale": P.MS}[k]
         add(name, kind, base)
-    return {"steps": steps, "nb": nb, "omitted": stats[0], "boundary": stats[1], "bad": bool(stats[2]), "band_ok": band_ok}
+    return {"steps": steps, "nb": nb, "omitted": stats[0], "boundary": stats[1], "bad": bool(stats[2]), "band_ok": band_ok,
+            "right_bands": right_bands}
 
 
 def combined_body(ctx: Ctx, p: dict) -> None:
     steps = [[n, dec(c)] for n, c in p["steps"]]
     bands = ["r", "g", "b"][:p["nb"]] if p["nb"] > 1 else None
-    md = metadata(bands)
-    tag = f"steps={steps} bands={bands}"
+    md = metadata(bands, right_bands=p.get("right_bands"))
+    tag = f"steps={steps} bands={bands} right_bands={p.get('right_bands')}"
     if p["bad"] or not p["band_ok"]:
         judge_reject(ctx, steps, md, tag)
     else:
